@@ -53,7 +53,8 @@ def main():
                          "random histories of the real code are validated against the same spec. Engines: %s.") % (txt, ", ".join(engines)),
                 "design_ref": "DESIGN.md section " + ref,
             },
-            "level_note": "Bounded: exhaustive only within the constants of the .cfg files (2-3 replicas, 1-2 elements/keys, 3-4 API ops; simulation beyond). Trusted: TLC, the TLA+ transcription of layer A, the harness's JSON projection. A VIOLATION is printed only when an observable of the real code contradicts layer A and is not an occurrence of a listed known finding in which the code does exactly what the pinned algorithm does.",
+            "level_note": "Bounded: exhaustive only within the constants of the .cfg files (2-3 replicas, 1-2 elements/keys, 3-4 API ops, plus scenario configs that start from a scripted state; random histories beyond). Trusted: TLC, the TLA+ transcription of layer A, the harness's JSON projection. A VIOLATION is printed only when an observable of the real code contradicts layer A and is not an occurrence of a listed known finding in which the code does exactly what the pinned algorithm does. A panic, hang or crash of the library while a behaviour is replayed is reported as a violation too (DESIGN 3.4)."
+                          + (" Two supplementary probes that are NOT bound to the TLA+ text run with the list and merkle engines (40-200 inserts into one gap; a node with 40-100 children): sizes TLC's 32-bit integers / state space cannot follow (DESIGN 9)." if ("list" in engines or "merkle" in engines) else ""),
             "technique": "explicit TLA+ spec + TLC exhaustive model checking; spec->impl replay of every TLC transition and impl->spec trace validation",
         })
     m = {
